@@ -275,6 +275,14 @@ template <typename S> auto dopt(S&& s) {
   return unifex::then(unifex::done_as_optional((S&&)s), [](std::optional<int> o) noexcept { return o ? *o : -1; });
 }
 
+// the same algorithm over a VOID-valued sender (the value travels through a side cell): done_as_optional must still
+// tell a value completion (engaged optional) from done (disengaged); the model term is the same (dopt s)
+template <typename S> auto dopt_void(S&& s) {
+  auto cell = std::make_shared<int>(0);
+  return unifex::then(unifex::done_as_optional(unifex::then((S&&)s, [cell](int v) noexcept { *cell = v; })),
+                      [cell](auto o) noexcept { return o ? *cell : -1; });
+}
+
 // ---- running one case ----------------------------------------------------------------------------------
 struct script_ev { char what; int id; char kind; int val; };   // what: 'L' leaf completion, 'S' stop
 inline std::vector<script_ev> parse_script(std::istream& is) {
